@@ -117,7 +117,7 @@ def text_len(t):
     if k in ('cat', 'fill'):
         return sum(text_len(c) for c in t[1])
     if k in ('nest', 'hang'):
-        return t[1] + text_len(t[2])
+        return abs(t[1]) + text_len(t[2])
     if k == 'ann':
         return text_len(t[2])
     if k == 'fc':
@@ -184,6 +184,7 @@ def full_alphabet():
     unary = [
         lambda d: ['nest', 2, d], lambda d: ['group', d], lambda d: ['ab', d], lambda d: ['align', d],
         lambda d: ['hang', 1, d], lambda d: ['ann', 'T:KEYWORD_CONSTANT', d], lambda d: ['ann', 'other', d],
+        lambda d: ['nest', -3, d],      # negative offsets: the running sum may dip below zero and come back
     ]
     return Alphabet(leaves, unary)
 
@@ -201,7 +202,8 @@ def reduced_alphabet():
 def classic_alphabet():
     """text, concat, nest, group, LINE, SOFTLINE, HARDLINE, always_break, align (C05/C06)."""
     leaves = [['t', 'a'], ['t', 'bb'], ['t', 'cccc'], ['line'], ['softline'], ['hardline']]
-    unary = [lambda d: ['nest', 2, d], lambda d: ['group', d], lambda d: ['ab', d], lambda d: ['align', d]]
+    unary = [lambda d: ['nest', 2, d], lambda d: ['group', d], lambda d: ['ab', d], lambda d: ['align', d],
+             lambda d: ['ann', 'T:KEYWORD_CONSTANT', d]]     # annotations add no choice and no width
     return Alphabet(leaves, unary, fc=False, cat=(2, 3), fill=None)
 
 
